@@ -159,7 +159,12 @@ func (s *Service) AttestAndScheduleAggregate(ctx context.Context, duty *attester
 		return
 	}
 
+	aggregating := make(map[phase0.CommitteeIndex]bool)
 	for _, attestation := range attestations {
+		if aggregating[attestation.Data.Index] {
+			// Already aggregating for this committee.
+			continue
+		}
 		log := log.With().Uint64("attestation_slot", uint64(attestation.Data.Slot)).Uint64("committee_index", uint64(attestation.Data.Index)).Logger()
 		slotInfoMap, exists := subscriptionInfoMap[attestation.Data.Slot]
 		if !exists {
@@ -213,8 +218,9 @@ func (s *Service) AttestAndScheduleAggregate(ctx context.Context, duty *attester
 				continue
 			}
 			// We are set up as an aggregator for this slot and committee.  It is possible that another validator has also been
-			// assigned as an aggregator, but we're already carrying out the task so do not need to go any further.
-			return
+			// assigned as an aggregator for it, but we're already carrying out the task so do not need to go any further
+			// for this committee; other committees of the slot still need their own aggregation.
+			aggregating[attestation.Data.Index] = true
 		}
 	}
 }
